@@ -209,20 +209,30 @@ class Sched:
         return None
 
     def _local_trace_hot(self, frame, event, arg):
-        if event == "line":
-            if self.granularity == "line":
-                self.yield_point("L", True)
-        elif event == "opcode":
-            self.yield_point("O", True)
-        return self._local_trace_hot
+        return self._trace_event(frame, event, True)
 
     def _local_trace_cold(self, frame, event, arg):
-        if event == "line":
-            if self.granularity == "line":
-                self.yield_point("L", False)
-        elif event == "opcode":
-            self.yield_point("O", False)
-        return self._local_trace_cold
+        return self._trace_event(frame, event, False)
+
+    def _trace_event(self, frame, event, hot):
+        me = self._local_trace_hot if hot else self._local_trace_cold
+        if self.granularity == "opcode":
+            # CPython 3.12 has crashed (segmentation fault) when an exception left a trace
+            # callback - or tracing was switched off inside one - in a thread that uses
+            # per-opcode tracing, while a run was being aborted.  So with opcode granularity a
+            # trace callback never raises and never touches the trace state: once the run is
+            # aborting the callbacks are no-ops, the released threads run freely, and SimAbort
+            # is raised at their next explicit yield point (a simulated socket / lock / queue
+            # call), i.e. from ordinary Python code.
+            if event == "opcode" and not self.aborting:
+                try:
+                    self.yield_point("O", hot)
+                except SimAbort:
+                    pass
+            return me
+        if event == "line" and self.granularity == "line":
+            self.yield_point("L", hot)
+        return me
 
     # ------------------------------------------------------------------ events
     def at(self, t, fn, kind="delivery"):
@@ -356,10 +366,10 @@ class Sched:
 
     def yield_point(self, kind="", hot=True):
         me = self.me()
+        if me is not None and self.aborting:
+            raise SimAbort()  # (released threads run freely after an abort: the baton no longer matters)
         if me is None or me != self.current:
             return  # not a simulated thread / not ours
-        if self.aborting:
-            raise SimAbort()
         self.steps += 1
         self.threads[me].steps += 1
         if self.steps > self.step_cap:
@@ -376,10 +386,10 @@ class Sched:
 
         Returns True if cond became true, False on timeout."""
         me = self.me()
+        if me is not None and self.aborting:
+            raise SimAbort()
         if me is None or me != self.current:
             raise HarnessError("block() from a thread that does not hold the baton")
-        if self.aborting:
-            raise SimAbort()
         self.steps += 1
         if self.steps > self.step_cap:
             self.abort("step-cap")
